@@ -29,6 +29,9 @@ type mesh2Record struct {
 	Den     int      `json:"den"`
 	Tnum    int      `json:"tnum"`
 	Pos     [][2]int `json:"pos"`
+	// see latRecord
+	Coarse   [][2]int `json:"coarse"`
+	Margin16 int      `json:"margin16"`
 }
 
 // mesh2ToRecord projects a 2-D mesh onto integer coordinates in units of 1/d.
@@ -114,17 +117,54 @@ func exactFilter2(l *latticeSolid2, extra func() bool) func(*model2d.Rect) bool 
 type ms2Variant struct {
 	name string
 	run  func(l *latticeSolid2, rng *rand.Rand) (*model2d.Mesh, int)
+	c2f  *[2]float64
+}
+
+// geomFilter2: does the closed rectangle meet the boundary of the lattice solid?  (see geomFilter3)
+func geomFilter2(l *latticeSolid2) func(*model2d.Rect) bool {
+	s := l.shift
+	return func(r *model2d.Rect) bool {
+		lo, hi := r.MinVal.Array(), r.MaxVal.Array()
+		for y := 1; y <= l.n[1]+1; y++ {
+			for x := 1; x <= l.n[0]+1; x++ {
+				p := [2]int{x, y}
+				for a := 0; a < 2; a++ {
+					q := p
+					q[a]--
+					if l.at(p[0], p[1]) == l.at(q[0], q[1]) {
+						continue
+					}
+					hit := true
+					for b := 0; b < 2; b++ {
+						flo := math.Max(float64(p[b])-s, 1)
+						fhi := math.Min(float64(p[b])+1-s, float64(l.n[b]))
+						if b == a {
+							flo = math.Min(flo, float64(l.n[b]))
+							fhi = flo
+						}
+						if fhi < lo[b] || flo > hi[b] {
+							hit = false
+						}
+					}
+					if hit {
+						return true
+					}
+				}
+			}
+		}
+		return false
+	}
 }
 
 func ms2Variants() map[string]ms2Variant {
 	vs := []ms2Variant{
-		{"MS", func(l *latticeSolid2, _ *rand.Rand) (*model2d.Mesh, int) { return model2d.MarchingSquares(l, 1), 0 }},
+		{"MS", func(l *latticeSolid2, _ *rand.Rand) (*model2d.Mesh, int) { return model2d.MarchingSquares(l, 1), 0 }, nil},
 		{"MSFilterTrue", func(l *latticeSolid2, _ *rand.Rand) (*model2d.Mesh, int) {
 			return model2d.MarchingSquaresFilter(l, func(*model2d.Rect) bool { return true }, 1), 0
-		}},
+		}, nil},
 		{"MSFilterExact", func(l *latticeSolid2, _ *rand.Rand) (*model2d.Mesh, int) {
 			return model2d.MarchingSquaresFilter(l, exactFilter2(l, nil), 1), 0
-		}},
+		}, nil},
 		{"MSFilterExactPlus", func(l *latticeSolid2, rng *rand.Rand) (*model2d.Mesh, int) {
 			// the filter is called from one goroutine at a time per block, but guard anyway
 			ch := make(chan struct{}, 1)
@@ -135,23 +175,38 @@ func ms2Variants() map[string]ms2Variant {
 				return rng.Intn(2) == 0
 			}
 			return model2d.MarchingSquaresFilter(l, exactFilter2(l, extra), 1), 0
-		}},
+		}, nil},
 		{"MSSearch3", func(l *latticeSolid2, _ *rand.Rand) (*model2d.Mesh, int) {
 			return model2d.MarchingSquaresSearch(l, 1, 3), 16
-		}},
+		}, nil},
 		{"MSSearch5", func(l *latticeSolid2, _ *rand.Rand) (*model2d.Mesh, int) {
 			return model2d.MarchingSquaresSearch(l, 1, 5), 64
-		}},
+		}, nil},
 		{"MSSearchFilter3", func(l *latticeSolid2, _ *rand.Rand) (*model2d.Mesh, int) {
 			return model2d.MarchingSquaresSearchFilter(l, exactFilter2(l, nil), 1, 3), 16
-		}},
+		}, nil},
 		{"MSConj3", func(l *latticeSolid2, _ *rand.Rand) (*model2d.Mesh, int) {
 			return model2d.MarchingSquaresConj(l, 2, 3, &model2d.Scale{Scale: 2},
 				&model2d.Translate{Offset: model2d.XY(4, -2)}), 16
-		}},
+		}, nil},
 		{"MSC2F", func(l *latticeSolid2, _ *rand.Rand) (*model2d.Mesh, int) {
 			return model2d.MarchingSquaresC2F(l, 2, 1, 0, 3), 16
-		}},
+		}, nil},
+		{"MSC2Fx0", func(l *latticeSolid2, _ *rand.Rand) (*model2d.Mesh, int) {
+			return model2d.MarchingSquaresC2F(l, 2, 1, 0, 3), 16
+		}, &[2]float64{2, 0}},
+		{"MSC2Fx3", func(l *latticeSolid2, _ *rand.Rand) (*model2d.Mesh, int) {
+			return model2d.MarchingSquaresC2F(l, 2, 1, 3, 3), 16
+		}, &[2]float64{2, 3}},
+		{"MSC2Fx6", func(l *latticeSolid2, _ *rand.Rand) (*model2d.Mesh, int) {
+			return model2d.MarchingSquaresC2F(l, 2, 1, 6, 3), 16
+		}, &[2]float64{2, 6}},
+		{"MSFilterGeom", func(l *latticeSolid2, _ *rand.Rand) (*model2d.Mesh, int) {
+			old := l.shift
+			l.shift = 1.0 / 2048
+			defer func() { l.shift = old }()
+			return model2d.MarchingSquaresFilter(l, geomFilter2(l), 1), 0
+		}, nil},
 	}
 	out := map[string]ms2Variant{}
 	for _, v := range vs {
@@ -172,7 +227,7 @@ func bits2(l *latticeSolid2) []int {
 
 func runMS2(id int, l *latticeSolid2, v ms2Variant, procs int, rng *rand.Rand) mesh2Record {
 	rec := mesh2Record{Id: id, Kind: "ms", Variant: v.name, Cfg: "procs=" + itoa(procs), N: l.n[:], Inside: bits2(l),
-		Verts: [][2]int{}, Segs: [][2]int{}, Esegs: [][2]int{}, Pos: [][2]int{}}
+		Verts: [][2]int{}, Segs: [][2]int{}, Esegs: [][2]int{}, Pos: [][2]int{}, Coarse: [][2]int{}}
 	if procs > 0 {
 		old := runtime.GOMAXPROCS(procs)
 		defer runtime.GOMAXPROCS(old)
@@ -184,6 +239,12 @@ func runMS2(id int, l *latticeSolid2, v ms2Variant, procs int, rng *rand.Rand) m
 			rec.Tnum = den - den*latShiftNum/16
 		}
 		mesh2ToRecord(&rec, m, 64, true, den)
+		if v.c2f != nil {
+			rec.Margin16 = int(math.Floor(16*(2*v.c2f[0]*math.Sqrt(3)+v.c2f[1]))) - 1
+			for _, c := range model2d.MarchingSquaresSearch(l, v.c2f[0], 3).VertexSlice() {
+				rec.Coarse = append(rec.Coarse, [2]int{int(math.Round(c.X * 16)), int(math.Round(c.Y * 16))})
+			}
+		}
 	})
 	return rec
 }
@@ -204,7 +265,7 @@ func runBitmap(id, w, h int, bits uint64, randBits []bool) mesh2Record {
 		}
 	}
 	rec := mesh2Record{Id: id, Kind: "bitmap", Variant: "Bitmap.Mesh", N: []int{w, h}, Inside: inside,
-		Verts: [][2]int{}, Segs: [][2]int{}, Esegs: [][2]int{}, Pos: [][2]int{}}
+		Verts: [][2]int{}, Segs: [][2]int{}, Esegs: [][2]int{}, Pos: [][2]int{}, Coarse: [][2]int{}}
 	rec.Panic = protect(func() {
 		mesh2ToRecord(&rec, bmp.Mesh(), 8, false, 0)
 	})
@@ -240,6 +301,32 @@ func blocky2(rng *rand.Rand, n, feat int) *latticeSolid2 {
 	return l
 }
 
+func satellite2(rng *rand.Rand, n int) *latticeSolid2 {
+	l := newLatticeSolid2(n, n, 0)
+	var lo, sz [2]int
+	for a := 0; a < 2; a++ {
+		sz[a] = 2 + rng.Intn(3)
+		lo[a] = 1 + rng.Intn(2)
+	}
+	for y := lo[1]; y < lo[1]+sz[1]; y++ {
+		for x := lo[0]; x < lo[0]+sz[0]; x++ {
+			l.inside[x-1+n*(y-1)] = true
+		}
+	}
+	for k := 0; k < 1+rng.Intn(3); k++ {
+		p := [2]int{1 + rng.Intn(n), 1 + rng.Intn(n)}
+		if k == 0 {
+			p[rng.Intn(2)] = n - rng.Intn(4)
+		}
+		axis, length := rng.Intn(2), 1+rng.Intn(2)
+		for i := 0; i < length && p[axis] <= n; i++ {
+			l.inside[p[0]-1+n*(p[1]-1)] = true
+			p[axis]++
+		}
+	}
+	return l
+}
+
 func init() {
 	// c01-mesh2 out= stats= plan=  with items
 	//   ms:all:W,H:variants:procs | ms:rand:W,H:COUNT:variants:procs | ms:blocky:N:COUNT:variants:procs
@@ -256,6 +343,9 @@ func init() {
 			stats["triangles"] += len(rec.Segs)
 			if len(rec.Segs) > 0 {
 				stats["nonempty"]++
+			}
+			if rec.Margin16 > 0 {
+				stats["guarded"]++
 			}
 			out.write(rec)
 		}
@@ -300,6 +390,10 @@ func init() {
 			case "ms:blocky":
 				for i := 0; i < atoi(f[3]); i++ {
 					emitMS(blocky2(rng, atoi(f[2]), 4), f[4], f[5])
+				}
+			case "ms:sat":
+				for i := 0; i < atoi(f[3]); i++ {
+					emitMS(satellite2(rng, atoi(f[2])), f[4], f[5])
 				}
 			case "bitmap:all":
 				w, h := dims(f[2])
